@@ -505,7 +505,12 @@ func editsFor(s loginpeer.Script, plain bool) []edit {
 						nf.Cols = append([]rc.Col{}, nf.Cols...)
 						nr := *p[i+1].Row
 						nr.Cells = append([]rc.Cell{}, nr.Cells...)
-						f(&nf, &nr)
+						func() {
+							// an earlier edit of a multi-edit script may have removed the parameter
+							// this one alters: then it alters nothing
+							defer func() { recover() }()
+							f(&nf, &nr)
+						}()
 						p[i], p[i+1] = rc.P{Fmt: &nf}, rc.P{Row: &nr}
 						*resp(s, r) = p
 					}})
